@@ -614,6 +614,10 @@ def limit_errors_final(prog, chk):
                 chk.ok("A6.limit-carrier", key + ":" + site.fate, where, f"Result of {site.callee.path} (may carry a limit error) is {site.fate}")
             elif body.path == "svgdx::transform::process_tags" and site.callee.decl_path == "svgdx::transform::EventGen::generate_events":
                 chk.ok("A6.limit-carrier", key + ":collector", where, "collector: discharged by A13.limit-final (variant test before queueing)")
+            elif base == "matched" and body.path.startswith(("svgdx::server::", "svgdx::cli::", "svgdx::main")) and not body.raw.get("output", "").startswith("std::result::Result<"):
+                # a front-end that cannot hand the error further up reads it (to render it): reported, not swallowed -
+                # that the report is faithful is C07's subject (A6.frontend-verdict, A13.http-status / exit-status)
+                chk.ok("A6.limit-carrier", key + ":front-end", where, f"front-end reads the error of {site.callee.path} to report it")
             elif (body.path, site.callee.path) in SWALLOW_OK:
                 chk.ok("A6.limit-carrier", key + ":table", where, SWALLOW_OK[(body.path, site.callee.path)], by="table")
             else:
